@@ -97,12 +97,15 @@ def exclusion_wrapper(f, call):
     h = gs[0]
     fo = Fold(h, record_calls=r"ExclusionList::IsExcluded$").run()
     ex = [e for e in fo.events if e["kind"] == "call"]
-    if len(ex) != 1 or len(fo.returns) < 1:
+    if len(ex) < 1 or len(fo.returns) < 1:
         return None
     pnames = [p_["name"] for p_ in h.j["params"]]
-    a_, b_ = str(ex[0]["args"][0]), str(ex[0]["args"][1])
-    if a_ not in pnames or b_ not in pnames:
-        return None
+    pairs_ = []
+    for e_ in ex:
+        a_, b_ = str(e_["args"][0]), str(e_["args"][1])
+        if a_ not in pnames or b_ not in pnames:
+            return None
+        pairs_.append((a_, b_))
     # truth table of the returned value over (flag parameters, IsExcluded result)
     flags = [p_["name"] for p_ in h.j["params"] if (p_.get("type") or "").replace("const ", "").strip() == "bool"]
     val = fo.returns[0][0] if len(fo.returns) == 1 else None
@@ -114,23 +117,27 @@ def exclusion_wrapper(f, call):
     def orc(lf):
         s_ = str(lf)
         if s_.startswith("IsExcluded("):
-            return ("excl", True)
+            # one predicate per tested pair: the helper may return the disjunction over several pairs
+            for k_, (a1, b1) in enumerate(pairs_):
+                if re.search(r"\b%s\b.*\b%s\b" % (re.escape(a1), re.escape(b1)), s_):
+                    return ("excl%d" % k_, True)
+            return ("excl0", True)
         if s_ in flags:
             return ("flag:" + s_, True)
         return None
-    names = ["excl"] + ["flag:" + x for x in flags]
+    names = ["excl%d" % k_ for k_ in range(len(pairs_))] + ["flag:" + x for x in flags]
     ok_flag = None
     for vals in itertools.product((True, False), repeat=len(names)):
         A = dict(zip(names, vals))
         r = decide(val, None, A, orc, getattr(fo, "conds", {}))
         if r is None:
             return None
-        want = A["excl"] and all(A[k_] for k_ in names[1:])
+        want = any(A["excl%d" % k_] for k_ in range(len(pairs_))) and all(A[k_] for k_ in names[len(pairs_):])
         if r != want:
             return None
     argn = {pn: an for pn, an in zip(pnames, call["args"])}
     sw = bool(flags) and all(unwrap(argn[x]).get("k") == "member" and unwrap(argn[x]).get("fname") == "do_exclusions_" for x in flags)
-    return {"args": [argn[a_], argn[b_]], "switch": sw}
+    return {"args": [argn[pairs_[0][0]], argn[pairs_[0][1]]], "pairs": [[argn[a1], argn[b1]] for a1, b1 in pairs_], "switch": sw}
 
 
 def check_kernel(rep, f, add, find, arity):
@@ -238,7 +245,8 @@ def check_kernel(rep, f, add, find, arity):
             w = exclusion_wrapper(f, n)
             if w is not None:
                 wrapped[n["id"]] = w
-                excl.append({"id": n["id"], "args": w["args"], "k": "call", "line": n.get("line"), "wrapper": True})
+                for pr_ in w.get("pairs", [w["args"]]):
+                    excl.append({"id": n["id"], "args": pr_, "k": "call", "line": n.get("line"), "wrapper": True})
     want_ex = 1 if arity == 2 else 3
     rep.floor("R3.2", len(excl), want_ex, "exclusion tests in " + name)
     ex_pairs = set()
@@ -285,10 +293,13 @@ def check_kernel(rep, f, add, find, arity):
     stages = [("cutoff", [c["id"] for c in cmps]), ("exclusion", [e["id"] for e in excl]), ("match", [M["id"]]), ("lookup", [fd["id"] for fd in finds]), ("insert", [A["id"]])]
     reach = g.reachable_blocks(assume=assume)
     ok, why = True, ""
+    passv = {"cutoff": True, "exclusion": False, "match": True, "lookup": False}
     for (n1, ids1), (n2, ids2) in zip(stages, stages[1:]):
         for a in ids1:
             for b in ids2:
-                if a in g.where and b in g.where and not dominates_under(g, a, b, assume):
+                # the earlier test precedes the later step on every path: by dominance, or because the later step is reachable only over
+                # the passing edge of the earlier test (a conjunct of a materialised !(A && B) does not dominate, but is required)
+                if a in g.where and b in g.where and not dominates_under(g, a, b, assume) and g.edge_required(a, passv[n1], b, assume) is not True:
                     ok, why = False, "%s test does not dominate the %s step" % (n1, n2)
     rep.check(ok, "R3.2", name + "|order", "cutoff -> exclusion -> callback -> lookup -> insert", "%s: %s (e.g. the callback sees excluded or out-of-range tuples, or is called after insertion)" % (name, why), f.loc(), sample=True)
     # --- self exclusion (3-body)
